@@ -50,6 +50,15 @@ theorem expand_is_iupac :
       (Iupac.denotes .dna ((Iupac.symbols .dna).getD a ' ')).map fun ch => (Iupac.canonical .dna).idxOf ch := by
   decide +kernel
 
+/-- writing any built-in table (under any of the three initiator settings, with or without the Easel comment line) in
+    NCBI text form and reading it back gives the same table: same 64 amino acids / stops, same 64 initiator flags
+    (the id and description are not part of the NCBI form: `esl_gencode_Read` leaves −1 and ""). The new object starts
+    as table 1, as `esl_gencode_Create` makes it. -/
+theorem read_write_roundtrip :
+    ∀ t0 ∈ T.tables.take 1, ∀ t ∈ T.tables, ∀ g ∈ settings (codeOf t), ∀ cm ∈ [true, false],
+      (write A.dna A.amino g cm).bind (read A.dna A.amino (codeOf t0)) =
+        some { translTable := -1, desc := "", basic := g.basic, isInit := g.isInit } := by decide +kernel
+
 /-! ## translation of a possibly degenerate codon: ANY table, ANY degeneracy matrix, any triplet of codes (general proof) -/
 
 /-- the model of the triple loop of `esl_gencode_GetTranslation` equals the specification -/
